@@ -156,6 +156,7 @@ func shrinkMain(fs *flag.FlagSet, args []string) {
 	in := fs.String("in", "", "")
 	out := fs.String("out", "", "")
 	secs := fs.Int("secs", 60, "")
+	noShrink := fs.Bool("noshrink", false, "only record the trace of the given tape")
 	fs.Parse(args)
 	var rf ReplayFile
 	if err := readJSON(*in, &rf); err != nil {
@@ -166,6 +167,13 @@ func shrinkMain(fs *flag.FlagSet, args []string) {
 		die2("unknown property %s", rf.Property)
 	}
 	rf.OrigTapeLen = len(rf.Tape)
+	if *noShrink {
+		fillReplay(p, &rf)
+		if err := writeJSON(*out, &rf); err != nil {
+			die2("%v", err)
+		}
+		return
+	}
 	small, execs := shrinkTape(p, rf.Tier, rf.Tape, rf.Class, rf.Key, time.Duration(*secs)*time.Second)
 	if small == nil {
 		die2("violation class %s did not reproduce in the shrinker (harness nondeterminism?)", rf.Class)
